@@ -53,14 +53,16 @@ NextObj(o) == IF o = "P" THEN "C" ELSE "G"
 Eval(o, k) == /\ Len(hist) < MaxDepth /\ Exists(o) /\ k \notin DOMAIN cache[o]
               /\ cache' = [cache EXCEPT ![o] = @ @@ (k :> ids[o])]
               /\ UNCHANGED <<ids, scalar, reg, alias>> /\ Log([op |-> "eval", obj |-> o, arg |-> k])
-Index(o, f) == /\ Len(hist) < MaxDepth /\ Exists(o) /\ ~scalar[o] /\ o # "G" /\ ~Exists(NextObj(o)) /\ FormOK(ids[o], f)
-               /\ LET n == NextObj(o) IN
-                  /\ ids' = [ids EXCEPT ![n] = Sel(ids[o], f)]
-                  /\ scalar' = [scalar EXCEPT ![n] = IsScalarForm(f)]
+\* (the parent may be indexed AGAIN after other operations: the new slice replaces C, and what was built on the old slice is dropped)
+Index(o, f) == /\ Len(hist) < MaxDepth /\ Exists(o) /\ ~scalar[o] /\ o # "G" /\ (~Exists(NextObj(o)) \/ o = "P") /\ FormOK(ids[o], f)
+               /\ LET n == NextObj(o)
+                      again == Exists(n) IN
+                  /\ ids' = [[ids EXCEPT ![n] = Sel(ids[o], f)] EXCEPT !["G"] = IF again THEN NoObj ELSE @]
+                  /\ scalar' = [[scalar EXCEPT ![n] = IsScalarForm(f)] EXCEPT !["G"] = IF again THEN FALSE ELSE @]
                   \* cached per-source values are sliced the same way; always-scalar values are not handed over
-                  /\ cache' = [cache EXCEPT ![n] = [k \in (DOMAIN cache[o]) \ ScalarKinds |-> Sel(cache[o][k], f)]]
-                  /\ reg' = [reg EXCEPT ![n] = reg[alias[o]]]
-                  /\ alias' = [alias EXCEPT ![n] = IF Variant = "shared_registry" THEN alias[o] ELSE n]
+                  /\ cache' = [[cache EXCEPT ![n] = [k \in (DOMAIN cache[o]) \ ScalarKinds |-> Sel(cache[o][k], f)]] EXCEPT !["G"] = IF again THEN Empty ELSE @]
+                  /\ reg' = [[reg EXCEPT ![n] = reg[alias[o]]] EXCEPT !["G"] = IF again THEN <<>> ELSE @]
+                  /\ alias' = [[alias EXCEPT ![n] = IF Variant = "shared_registry" THEN alias[o] ELSE n] EXCEPT !["G"] = IF again THEN "G" ELSE @]
                /\ Log([op |-> "index", obj |-> o, arg |-> f])
 AddExtra(o, nm) == /\ Len(hist) < MaxDepth /\ Exists(o) /\ nm \notin {reg[alias[o]][i] : i \in 1..Len(reg[alias[o]])}
                    /\ reg' = [reg EXCEPT ![alias[o]] = Append(@, nm)]            \* list.append: in place
